@@ -109,11 +109,11 @@ func cmdFaultEnum(args []string) int {
 		probe.Check = false
 		probe.Probe = true
 		for _, p := range ps {
-			for kind := 0; kind < 3; kind++ {
+			for kind := 0; kind < 4; kind++ {
 				v := *c
 				v.Calls = append([]gen.Call{}, c.Calls...)
 				last := v.Calls[len(v.Calls)-1]
-				last.Panic, last.Stall = nil, nil
+				last.Panic, last.Stall, last.Dead = nil, nil, nil
 				switch kind {
 				case 0:
 					last.Panic = [][]any{{p.b, p.h, "boom"}}
@@ -121,6 +121,10 @@ func cmdFaultEnum(args []string) int {
 					last.Panic = [][]any{{p.b, p.h, "err:bang"}}
 				case 2:
 					last.Stall = [][]any{{p.b, p.h}}
+				case 3:
+					// the handler outlives HandlerDeadline as well
+					last.Stall = [][]any{{p.b, p.h}}
+					last.Dead = [][]any{{p.b, p.h}}
 				}
 				if *pairs && kind < 2 && !(len(p.h) > 1 && p.h[1] == "Exception") {
 					// second fault inside an Exception handler of binding 1
@@ -133,6 +137,15 @@ func cmdFaultEnum(args []string) int {
 				}
 				v.Calls[len(v.Calls)-1] = last
 				v.Calls = append(v.Calls, probe)
+				if kind == 3 {
+					// the probe above meets the backoff; then the backoff ends, the
+					// probe is issued again, and at last the handler returns
+					none := gen.Call{Called: []string{}, Veto: [][]any{}, Nest: []gen.NestAt{}}
+					off, rel := none, none
+					off.Ev, off.Backoff = "env", false
+					rel.Ev = "release"
+					v.Calls = append(v.Calls, off, probe, rel)
+				}
 				v.Label = fmt.Sprintf("%s@%d|%s/%d", c.Label, p.b, p.h.Key(), kind)
 				jobs = append(jobs, job{&v})
 				positions++
@@ -160,7 +173,13 @@ func cmdFaultEnum(args []string) int {
 		go func(i int, c *gen.Case) {
 			defer wg.Done()
 			defer func() { <-sem }()
-			lines, err := seqdrv.Run(c, seqdrv.Opts{Views: false, HandlerTimeout: 150 * time.Millisecond})
+			o := seqdrv.Opts{Views: false, HandlerTimeout: 150 * time.Millisecond}
+			for _, cl := range c.Calls {
+				if len(cl.Dead) > 0 {
+					o.HandlerDeadline = 120 * time.Millisecond
+				}
+			}
+			lines, err := seqdrv.Run(c, o)
 			if err != nil {
 				fmt.Fprintln(os.Stderr, err)
 				os.Exit(2)
